@@ -1,6 +1,7 @@
 import MpsVerif.Core.Sys
 import MpsVerif.Core.Validate
 import MpsVerif.Drv.Fifo
+import MpsVerif.Drv.IterQueue
 import MpsVerif.Props.C01
 import MpsVerif.Props.C05
 import MpsVerif.Props.C08
